@@ -123,7 +123,7 @@ impl Check for C03 {
                     }
                     p
                 }
-                Cfg::Terminal => terminal_read(&mut io.borrow_mut().ftape, endlib_end),
+                Cfg::Terminal => terminal_read(&mut io.borrow_mut().ftape, endlib_end, true),
             };
             extra ^= policy_digest(&pol);
             fs.plan(INP, FilePlan { read: pol, ..Default::default() });
